@@ -34,7 +34,7 @@ impl Prop for C02 {
         gen::hist(tier.pick(20, 40), &[0, 0, 1, 2])
     }
     fn random_cases(&self, tier: Tier) -> u32 {
-        tier.pick(12_000, 300_000)
+        tier.pick(60_000, 600_000)
     }
     fn check(&self, case: &HistCase) -> Outcome {
         let mut out = Outcome::new();
